@@ -853,6 +853,13 @@ func derMalformations(sig []byte, order *big.Int) []derCase {
 	add("trailing-inside-sequence", seq(rT, sT, []byte{2, 1, 1}))
 	add("trailing-inside-sequence", seq(rT, sT, []byte{0, 0}))
 	add("trailing-inside-sequence", seq(rT, sT, sT))
+	// both at once: extra elements inside the SEQUENCE and bytes after it (each alone is
+	// handled by a different branch of the verifier)
+	for _, in := range [][]byte{{0}, {5, 0}, {2, 1, 1}, sT} {
+		for _, out := range [][]byte{{0}, {0xff}, {5, 0}} {
+			add("trailing-inside-and-outside", append(seq(rT, sT, in), out...))
+		}
+	}
 	add("seq-length+1", append(append([]byte{0x30}, derLen(len(body)+1)...), body...))
 	add("seq-length-1", append(append([]byte{0x30}, derLen(len(body)-1)...), body...))
 	add("seq-length-0", append([]byte{0x30, 0}, body...))
